@@ -100,9 +100,12 @@ def judge(case):
     strat = strategies()[sname]
     # every other case selects the strategy together with an explicit log
     # level (the two-argument form of set_error_strategy)
-    if (len(prog) + len(faults) + len(driver)) % 2:
+    sel = (len(prog) + len(faults) + len(driver) + len(sname)) % 4
+    if sel:
+        # (also the lowest level, 0 = logging.NOTSET, and a low one)
         import logging
-        strat = (strat, logging.ERROR)
+        strat = (strat, (None, logging.ERROR, logging.NOTSET,
+                         logging.DEBUG)[sel])
     with common.quiet_stdio():
         try:
             r = progmc.run_pieces(prog, clock, pieces, faults=faults,
